@@ -201,3 +201,14 @@ CHECKS["C17"] = dict(
     assumptions=E4_ASSUME,
     units=[dict(pkg="config", test="TestVerifC17", shards_quick=16, shards_thorough=16, budget_quick=100, budget_thorough=1500)],
 )
+
+CHECKS["C20"] = dict(
+    level="model_checking",
+    engine="seqx+enumx",
+    rule="pipeline: every outcome script (<=3 quick / <=5 thorough attempts over ok / recoverable / unrecoverable / hang-to-deadline) for the first integration x 5 scripts for the second x flush deadlines 1s/3s/10s on the real per-receiver stage chain with a real nflog under virtual time; crash: the flush abandoned at every observable boundary (entry of each attempt, delivered-but-not-yet-reported, flush returned), restart from the nflog image of that instant, next flush; truncate: all strings <= 4 / 6 atoms (incl. 40-rune atoms) x all limits, runes and bytes; payload: all batches <= 3 alerts x firing/resolved x send_resolved x max_alerts through template.Data and the real webhook notifier. states = distinct outcome classes; transitions = delivery attempts / evaluations",
+    technique="bounded-exhaustive enumeration of environment answer sequences (fault scripts x deadlines) and crash points on the real stage chain, reference retry law; bounded-exhaustive input enumeration for truncation and payload",
+    level_text="Retry law (next attempt exactly one backoff step after each recoverable failure while the deadline allows, none after ok / unrecoverable), flush reports failure iff an integration had no success, the notification log holds an entry for exactly the integrations that succeeded and never stamped before the success, a failing sibling changes nothing for the other integration; a crash at any boundary followed by a restart from the log image never yields zero deliveries and a completed flush is not repeated; truncation never panics, never exceeds the limit, never splits a character and returns a prefix plus marker.",
+    level_note="Backoff jitter is removed by the overlay (exact instants). The crash model is process kill at the listed boundaries with the nflog content of that instant (file-level crash consistency is C11).",
+    assumptions=E1_ASSUME,
+    units=[dict(pkg="notify", test="TestVerifC20", shards_quick=16, shards_thorough=16, budget_quick=100, budget_thorough=1500)],
+)
